@@ -122,9 +122,8 @@ def crdRangeOk : List Level → List Nat → Nat → Option Nat
 def encode (modes : List Mode) (ordering : List Nat) (dims : List Nat)
     (entries : List (List Int × Int)) : Except EncErr Stored :=
   if ¬ (validOrdering ordering modes.length ∧ dims.length = modes.length) then .error .badOrdering else
-  match entries.mapM (fun e => (toLevelOrder ordering e.1).map fun c => (c, e.2)) with
-  | none => .error .badCoordinateLength
-  | some es =>
+  if ¬ entries.all (fun e => (toLevelOrder ordering e.1).isSome) then .error .badCoordinateLength else
+    let es : List Entry := entries.filterMap fun e => (toLevelOrder ordering e.1).map fun c => (c, e.2)
     let levelDims := ordering.map fun i => dims.getD i 0
     let r := enc modes levelDims es
     let levels := mkLevels modes r.1
